@@ -345,7 +345,7 @@ func (e *Ev) specCall(name string, n *ast.CallExpr) (Term, bool) {
 		if a.Sort == sSlice {
 			s = app("sarr", a.S)
 		}
-		e.g().Pre.add("(declare-fun fresh$ (Int) Bool)")
+		e.g().Pre.addFresh()
 		if e.allocPred != "" {
 			return Term{S: app(e.allocPred, s), Sort: sBool, T: boolT}, true
 		}
